@@ -55,6 +55,10 @@ class BaseClient:
     def transfer_with_exit(self, s, S):
         return S
 
+    def assume(self, test, branch, S):
+        """refine the state with the outcome of a branch condition (default: no refinement)"""
+        return S
+
 
 class Flow:
     def __init__(self, client):
@@ -95,8 +99,8 @@ class Flow:
             return None, [("continue", S, s)]
         if isinstance(s, ast.If):
             ex = [("exc", S, s)] if self.may_raise(s.test) else []
-            S1, e1 = self.block(s.body, S)
-            S2, e2 = self.block(s.orelse, S)
+            S1, e1 = self.block(s.body, c.assume(s.test, True, S))
+            S2, e2 = self.block(s.orelse, c.assume(s.test, False, S))
             return join(S1, S2), ex + e1 + e2
         if isinstance(s, (ast.For, ast.While)):
             head = s.iter if isinstance(s, ast.For) else s.test
